@@ -146,6 +146,14 @@ class Client:
     def on_callee_exit(self, ev: Event, cs: Any, exit_kind: str) -> Any:
         return cs
 
+    def track_attr(self, leaf: str) -> bool:
+        """keep constant facts about attribute `leaf` at all (stores and tests)"""
+        return True
+
+    def refine_attr(self, leaf: str) -> bool:
+        """record facts learned from *tests* of attribute `leaf` (stores are always recorded)"""
+        return True
+
     def on_branch(self, ev: Event, cs: Any, branch: bool) -> Any:
         """cstate on the T/F edge of an atomic test (ev.env is the *refined* env)"""
         return cs
@@ -156,7 +164,7 @@ class Exit:
     how: str  # 'return' | 'raise'
     kind: str | None
     retval: Any
-    env: tuple  # facts rooted at parameters (frozen)
+    env: frozenset  # facts rooted at parameters (frozen)
     cstate: Any
     witness: Any = None
 
@@ -388,6 +396,8 @@ class Interp:
                     cur = self.ev(pe, env, cfg)
                     if cur is not None and cur[0] not in ("nn", "tr", "fa"):
                         continue
+                    if len(p) > 1 and not self.client.refine_attr(p[-1]):
+                        continue
                     if positive:
                         new = dict(env)
                         self._assign(new, p, cv)
@@ -398,7 +408,7 @@ class Interp:
         elif isinstance(cond, (ast.Name, ast.Attribute)):
             p = self.path_of(cond)
             cur = self.ev(cond, env, cfg)
-            if p is not None and (cur is None or cur == ("nn",)):
+            if p is not None and (cur is None or cur == ("nn",)) and (len(p) == 1 or self.client.refine_attr(p[-1])):
                 new = dict(env)
                 self._assign(new, p, ("tr",) if branch else ("fa",))
         return new if new is not None else env
@@ -415,6 +425,11 @@ class Interp:
 
     def _assign(self, env: dict, path: Path, val: Any) -> None:
         self._clear(env, path)
+        if len(path) >= 2 and path[-1] != "$type" and not is_temp(path) and not self.client.track_attr(path[-1]):
+            if val is not None and val != KILL and val[0] == "i":
+                pass  # keep the structure of records (their fields are filtered recursively)
+            else:
+                return
         if val is None or val == KILL:
             env[path] = KILL
             return
@@ -441,8 +456,8 @@ class Interp:
             self._assign(env, p, val)
 
     # ================================================================== run
-    def freeze(self, env: dict) -> tuple:
-        return tuple(sorted(((k, v) for k, v in env.items()), key=repr))
+    def freeze(self, env: dict) -> frozenset:
+        return frozenset(env.items())
 
     def run(self, fi: FuncInfo, env0: dict | None = None, cstate: Any = None, stack: tuple = ()) -> list[Exit]:
         env0 = dict(env0 or {})
@@ -484,7 +499,7 @@ class Interp:
         work: list[tuple[int, dict, Any, int]] = [(cfg.entry, env0, cstate0, w0)]
 
         def add_exit(how: str, kind: str | None, retval: Any, env: dict, cs: Any, w: int) -> None:
-            penv = {p: v for p, v in env.items() if p[0] in params}
+            penv = {p: v for p, v in env.items() if p[0] in params and len(p) >= 2}
             ex = Exit(how, kind, retval, self.freeze(penv), cs, w)
             exits.setdefault(ex.key(), ex)
 
@@ -506,7 +521,19 @@ class Interp:
             else:
                 add_exit("raise", kind, None, env, cs, w2)
 
+        live = cfg.live_in()
+
         def push(nid: int, env: dict, cs: Any, w: int) -> None:
+            lv = live[nid]
+            dead = [
+                p
+                for p, v in env.items()
+                if p[0] not in params and ((v == KILL) or (not is_temp(p) and p[0] not in lv))
+            ]
+            if dead:
+                env = dict(env)
+                for p in dead:
+                    del env[p]
             k = (nid, self.freeze(env), cs)
             if k in seen:
                 return
@@ -744,6 +771,8 @@ class Interp:
                 if depth_ok and self.client.descend(callee, ev):
                     cs_in = self.client.on_event(Event("enter", node, cfg, self, env, stack, target=tg), cs)
                     cenv, links = self._bind(call, tg, env, cfg)
+                    rd = self.prog.reads(callee)
+                    cenv = {p: v for p, v in cenv.items() if len(p) < 2 or p[-1] in rd or p[-1] == "$type"}
                     w1 = self._witness(w, ("call", callee.qual, f"{fi.module.relpath}:{node.lineno}"))
                     exits = self.run(callee, cenv, cs_in, stack + ((fi.qual, node.lineno),))
                     for ex in exits:
